@@ -341,6 +341,15 @@ CLAIMED["C03"] = dict(
 
 # additions made after the seeded-change rounds (DESIGN.md section 13)
 EXTRA = {
+ "C01": "ADDED: the whole rational-quadratic spline (knots from any unnormalised parameters, bin search, bin formula) is "
+        "differentiable at every interior point of its box, knots included (derivative gluing), and the returned log-abs-det "
+        "is the logarithm of that derivative (C01_rq_whole_spline_logabsdet_is_log_derivative).",
+ "C02": "ADDED: C02_rq_whole_spline_round_trips - for the whole rational-quadratic spline the inverse branch undoes the forward "
+        "branch and vice versa on the whole box with negated log-abs-dets, for every accepted configuration and all parameters.",
+ "C03": "ADDED: C03_rq_whole_spline_onto - the whole rational-quadratic spline attains every value of its target interval.",
+ "C17": "Tail bounds that are not representable in float32 (0.1, 0.7, 1.1, 3.3) are part of the search. "
+        "ADDED: C17_rq_whole_spline_accepts_its_box - every input of the closed box is accepted in both directions (no domain "
+        "error, no out-of-range bin), for every accepted configuration and all parameters (over the reals).",
  "C04": "The search also uses ConditionalDiagonalNormal bases whose draws reveal their context row, alone and under flows.",
  "C05": "mean() is also checked as the mode of the density (gradient of log_prob vanishes there) for flat and structured "
         "context layouts and multi-dimensional events.",
@@ -354,7 +363,13 @@ EXTRA = {
         "onto [bottom, top] with pinned end points whose inverse branch is its two-sided inverse with negated log-abs-det; the "
         "default configuration meets the hypotheses for any box and up to 1000 bins. Still by correspondence / search only: the "
         "assembly of the linear, quadratic and cubic families and the cubic bin.",
- "C11": "The search also covers weight_and_logabsdet(), weight_inverse_and_logabsdet() and cached passes in both orders.",
+ "C11": "The search also covers weight_and_logabsdet(), weight_inverse_and_logabsdet() and cached passes in both orders. ADDED: the "
+        "bodies of weight / weight_inverse / logabsdet / forward_no_cache / inverse_no_cache (and the cache-filling combined accessor) "
+        "of LULinear, QRLinear, SVDLinear and NaiveLinear are regenerated on every run as matrix expression trees and the same "
+        "statements are proved about THEM (C11_generated_*): weight_inverse inverts weight, the passes are X W^T + b and its "
+        "inverse, every returned log-abs-det is +/- log|det W| - for every size.",
+ "C06": "ADDED: a table of every use of a layer's weight / F.linear in both files, regenerated on every run, shows that no "
+        "evaluation path bypasses MaskedLinear.forward; the networks are also rebuilt in reverse order in a fresh process.",
  "C12": "The four unconstrained_*_spline wrappers are regenerated statement by statement into per-element functions and "
         "proved to hand every configured value to the inner spline whatever the rest of the batch holds; the search adds "
         "mixed-scale batches and spline configurations with non-default minimum bin sizes / derivative.",
@@ -363,7 +378,6 @@ EXTRA = {
         "check also draws one sample per context row, batched and not (where repeat_rows / split return views).",
  "C16": "Gradients are also checked through the inverse direction of every invertible catalogue entry. Known finding: the UMNN "
         "inverse (bisection) has no usable gradient.",
- "C17": "Tail bounds that are not representable in float32 (0.1, 0.7, 1.1, 3.3) are part of the search.",
  "C18": "Row pairing under batching is searched with context-revealing distributions (row i holds draws for context row i).",
  "C19": "The search also runs the linear family at widths 3-48 with diagonal parameters in one-sided boxes, cache on and off, "
         "both orders.",
